@@ -112,8 +112,9 @@ def _stop_monitor(tool):
 
 
 # ------------------------------------------------------------------ job pool
-def run_jobs(scen_name, jobs, scratch, default_budget):
-    """fork one process per job, at most NPROC at a time; returns list of record lists"""
+def run_jobs(scen_name, jobs, scratch, default_budget, global_deadline):
+    """fork one process per job, at most NPROC at a time; returns list of record lists.
+    Jobs that cannot start before the global deadline are skipped (-> inconclusive)."""
     running = {}
     results = [None] * len(jobs)
     nxt = 0
@@ -121,9 +122,13 @@ def run_jobs(scen_name, jobs, scratch, default_budget):
     while nxt < len(jobs) or running:
         while nxt < len(jobs) and len(running) < NPROC:
             job = jobs[nxt]
+            if time.time() > global_deadline:
+                results[nxt] = {'recs': [{'kind': 'skipped'}], 'wall': 0.0}
+                nxt += 1
+                continue
             rec_path = os.path.join(scratch, 'job%05d.jsonl' % nxt)
             budget = (job.get('opts') or {}).get('budget_s', default_budget)
-            deadline = time.time() + budget
+            deadline = min(time.time() + budget, global_deadline + 5)
             sys.stdout.flush()
             sys.stderr.flush()
             pid = os.fork()
@@ -132,6 +137,8 @@ def run_jobs(scen_name, jobs, scratch, default_budget):
                 os._exit(9)
             running[pid] = (nxt, rec_path, time.time())
             nxt += 1
+        if not running:
+            continue
         pid, status = os.wait()
         if pid not in running:
             continue
@@ -270,7 +277,11 @@ def _main(prop, tier, seed, scen_name, scratch, t0, only):
         j.setdefault('opts', {})
     default_budget = getattr(mod, 'BUDGET', {}).get(tier, 120 if tier == 'quick' else 900)
     log("[%s] %d jobs, tier=%s seed=%d nproc=%d" % (prop, len(jobs), tier, seed, NPROC))
-    results = run_jobs(scen_name, jobs, scratch, default_budget)
+    gb = getattr(mod, 'GLOBAL_BUDGET', {}).get(tier, 420 if tier == 'quick' else 3000)
+    for j in jobs:
+        j['opts'].setdefault('obl_ms', 8000 if tier == 'quick' else 30000)
+        j['opts'].setdefault('feas_ms', 1500 if tier == 'quick' else 3000)
+    results = run_jobs(scen_name, jobs, scratch, default_budget, t0 + gb)
     t_sym = time.time() - t0
     if os.environ.get('VERIF_DEBUG'):
         for j, r in zip(jobs, results):
@@ -282,6 +293,7 @@ def _main(prop, tier, seed, scen_name, scratch, t0, only):
     n_harness = n_vacuous = n_nontrivial = 0
     n_budget = 0
     n_wit_unrep = 0
+    n_skipped = 0
     nq = 0
     tq = 0.0
     maxq = 0.0
@@ -297,6 +309,9 @@ def _main(prop, tier, seed, scen_name, scratch, t0, only):
     for ji, (job, res) in enumerate(zip(jobs, results)):
         is_canary = bool(job.get('canary'))
         for rec in res['recs']:
+            if rec.get('kind') == 'skipped':
+                n_skipped += 1
+                continue
             if rec.get('kind') == 'crash':
                 n_crash += 1
                 harness_msgs.append("crash in job %d (%s): %s" % (
@@ -530,7 +545,9 @@ def _main(prop, tier, seed, scen_name, scratch, t0, only):
             json.dump(task, f, indent=1, default=str)
         violations.append((key, path))
 
-    inconclusive = bool(n_unknown or n_crash or n_harness or n_budget)
+    inconclusive = bool(n_unknown or n_crash or n_harness or n_budget or n_skipped)
+    if n_skipped:
+        harness_msgs.append('%d jobs skipped: global time budget exhausted' % n_skipped)
     if n_paths == 0 or (n_obl == 0):
         inconclusive = True
         harness_msgs.append("no obligations reached")
@@ -557,7 +574,7 @@ def _main(prop, tier, seed, scen_name, scratch, t0, only):
             'solver': {'name': 'z3', 'version': z3.get_version_string(), 'queries': nq,
                        'total_query_s': round(tq, 3), 'max_query_s': round(maxq, 3),
                        'feasibility_unknown_explored_both': unknown_feas},
-            'paths_aborted': n_abort, 'path_notes': notes,
+            'paths_aborted': n_abort, 'path_notes': notes, 'jobs_skipped_global_budget': n_skipped,
             'witnesses_skipped_unrepresentable': n_wit_skipped + n_wit_unrep,
             'witnesses_diverged_on_nondeterministic_stub': n_wit_diverged,
             'canary': {'jobs': len(canary_jobs), 'alive': canary_alive},
